@@ -546,7 +546,12 @@ class SymReal(_SymBase):
 
   def __round__(self, n=None):
     if n is not None:
-      raise Unsupported('round(x, n) on symbolic real')
+      # round to n decimals: nearest multiple of 10^-n (ties to even on the
+      # scaled value; doubles-as-reals model)
+      n = n.__index__() if is_sym(n) else int(n)
+      scale = 10 ** n if n >= 0 else z3.Q(1, 10 ** -n)
+      k = SymReal(self.t * scale).__round__()
+      return SymReal(z3.ToReal(k.t) / scale)
     # banker's rounding
     f = z3.ToInt(self.t)
     frac = self.t - z3.ToReal(f)
